@@ -197,6 +197,8 @@ package pubsub
 //@   requires decoded: (forall i int :: 0 <= i && i < len(rpc.RPC.Publish) ==> rpc.RPC.Publish[i] != nil) && (forall i int :: 0 <= i && i < len(rpc.RPC.Subscriptions) ==> rpc.RPC.Subscriptions[i] != nil)
 //@   requires topics: topicsRep(p)
 //@   noframe
+//@   at call (*Topic).sendNotification assume handlers-in-step-with-the-peer-map: $arg0 != nil && $arg0.evtHandlers != nil &&
+//@        (forall h *TopicEventHandler :: h in $arg0.evtHandlers ==> h != nil && ($arg1.Type == PeerJoin) == !evTruth[h][$arg1.Peer])
 //@   loop 1 invariant wf: wfPubSub(p) && rpc != nil
 //@   loop 2 invariant wf: wfPubSub(p) && rpc != nil
 //@   loop 3 invariant wf: wfPubSub(p) && rpc != nil
@@ -546,3 +548,14 @@ package pubsub
 //@   ensures close-reported-iff-open-reported: sent(p.incoming) - old(sent(p.incoming)) <= ite(sentNewStream, 1, 0) &&
 //@        (sent(p.incoming) > old(sent(p.incoming)) ==> lastsent(p.incoming).kind == incomingKindClosedStream && lastsent(p.incoming).s == s) &&
 //@        (sentNewStream && sent(p.incoming) == old(sent(p.incoming)) ==> ctxdone(p.ctx))
+
+// notifyLeave: a Leave event for that peer goes to the topic's handlers iff we track the topic.
+// (C18 link assumed here as in handleIncomingRPC: every registered handler's source-side set
+// agrees with the peer map as it was before the removal.)
+//@ func (*PubSub).notifyLeave
+//@   property C18
+//@   noframe
+//@   at call (*Topic).sendNotification assume handlers-in-step-with-the-peer-map: $arg0 != nil && $arg0.evtHandlers != nil &&
+//@        (forall h *TopicEventHandler :: h in $arg0.evtHandlers ==> h != nil && ($arg1.Type == PeerJoin) == !evTruth[h][$arg1.Peer])
+//@   at call (*Topic).sendNotification assert leave-of-that-peer: $arg0 == p.myTopics[topic] && $arg1.Type == PeerLeave && $arg1.Peer == pid
+//@   ensures told-iff-tracked: calls((*Topic).sendNotification) - old(calls((*Topic).sendNotification)) == ite(old(topic in p.myTopics), 1, 0)
